@@ -313,6 +313,12 @@ def main():
         run.violation("Poisson mode: counts are not Poisson distributed (PIT + DKW)", pit.summary(), mech={"what": "poisson-shape"})
     if ville.n < 200:
         run.inconclusive_because("too few Poisson-mode observations for the statistical monitors (%d)" % ville.n)
+    # a key left out of a dictionary means the constructor's documented default, in the object's own units (vf/history.py)
+    from vf.sandbox import run_extra as _rxd
+    from vf.common import seed as _sdd, tier as _trd
+    _wd = ['script']
+    _rxd(run, "vf.history:h_dict_defaults", [{"seed": _sdd(), "idx": _i, "which": _wd[_i % len(_wd)]} for _i in range(1200 if _trd() == "thorough" else 120)],
+         cpu_budget=60, kind_prefix="history: ")
     return run.finish()
 
 
